@@ -109,10 +109,13 @@ def string_cases(rng, flavor, net, others, count):
 		add(extra + valid, 'valid-after-leading-character')
 		add(valid[:10] + extra + valid[10:], 'character-inside')
 		add(valid[:-1] + extra, 'last-character-replaced')
+	count += len(cases)   # the boundary corpus above comes on top of the `count` random ones
+	# every style once, then at random
+	styles = list(range(16))
 	while len(cases) < count:
 		addr = ref_address(flavor, ident, rand_bytes(rng, 32))
 		text = ref_text(addr)
-		style = rng.randrange(16)
+		style = styles.pop(0) if styles else rng.randrange(16)
 		if style == 0:
 			add(text, 'valid')
 		elif style == 1:
@@ -220,7 +223,7 @@ def gen_cases(rng, tier):
 			keys += boundary_keys(rng)[:5]
 		for key in keys:
 			cases.append({'kind': 'derive', 'flavor': flavor, 'net': net, 'other': rng.choice(others), 'pk': key.hex()})
-		cases += string_cases(rng, flavor, net, others, 14 if quick else 520)
+		cases += string_cases(rng, flavor, net, others, 20 if quick else 520)
 		cases += bytes_cases(rng, flavor, net, others, 6 if quick else 90)
 	for flavor in ('symbol', 'nem'):
 		# identifiers that are not bytes: bytes([identifier]) raises; correspondence only
